@@ -236,7 +236,7 @@ Definition show_dataset (d : dataset) : string :=
 Definition show_node (n : node) : string :=
   match n with
   | NData d => show_dataset d
-  | NCol c => "C:" ++ col_str c ++ "{" ++ join "," (map show_dataset (cparents c)) ++ "}"
+  | NCol c => "C:" ++ col_str c ++ "{" ++ join "," (sort_strings (map show_dataset (cparents c))) ++ "}"
   | NStr s => "A:" ++ s
   end.
 Definition show_attrs (a : nattrs) : string :=
